@@ -15,7 +15,8 @@ from vlib.model import enc, dec
 PROPERTY = "C20"
 LEVEL = "exploration"
 SHARDS = {"quick": 16, "thorough": 16}
-RULE = ("seeded sets of 1-3 small documents over tiny value pools (hits are frequent), exported with "
+RULE = ("seeded sets of 1-3 small documents over tiny value pools (hits are frequent; int / float look-alikes 2 / 2.0, 1 / 1.0), "
+        "in a quarter of the sets plus a second revision (same ids, partly other content) of one of them, exported with "
         "rdf_subclassing=False; queries over 1-3 attributes of one kind and queries spanning Document+Section, "
         "Section+Property, Document+Section+Property; values taken from the documents (hits) or absent (misses), "
         "free of , ( ) : and double quote; dictionary and string form; match and fuzzy mode; every attribute name "
@@ -37,7 +38,7 @@ ATTRS = {"Doc": {"author": "hasAuthor", "date": "hasDate", "version": "hasDocVer
 VAR = {"Doc": "d", "Sec": "s", "Prop": "p"}
 POOL = {"author": ["Ada", "Bob Ray"], "version": ["v1", "2"], "name": ["alpha", "beta", "gamma"],
         "type": ["rec", "stim/noise"], "definition": ["def one", "other def"], "reference": ["ref1", "ref2"],
-        "unit": ["mV", "s"], "value_origin": ["file.dat", "other.bin"], "uncertainty": [0.5, 2, "3.5"],
+        "unit": ["mV", "s"], "value_origin": ["file.dat", "other.bin"], "uncertainty": [0.5, 2, "3.5", 2.0, 1, 1.0],
         "dtype": ["int", "string", "float"]}
 
 
@@ -58,7 +59,7 @@ def gen_docs(rng):
                 dtype = rng.choice(POOL["dtype"])
                 vals = {"int": [rng.choice([1, 2, 3]) for _ in range(rng.choice([1, 2]))],
                         "string": [rng.choice(["x", "y z"]) for _ in range(rng.choice([1, 2]))],
-                        "float": [rng.choice([1.5, 2.5])]}[dtype]
+                        "float": [rng.choice([1.5, 2.5, 2.0, 1.0])]}[dtype]
                 s["properties"].append({"k": "prop", "id": gen.new_id(rng), "name": pn, "dtype": dtype, "values": vals,
                                         "unit": rng.choice(POOL["unit"] + [None]),
                                         "uncertainty": rng.choice(POOL["uncertainty"] + [None, None]),
@@ -73,6 +74,25 @@ def gen_docs(rng):
         for sn in rng.sample(POOL["name"], rng.choice([1, 2, 3])):
             d["sections"].append(sec(sn, rng.choice([0, 1])))
         docs.append(d)
+    if rng.random() < 0.25:
+        # a second revision of one of the documents in the same export: same ids, partly other content
+        import copy
+        rev = copy.deepcopy(rng.choice(docs))
+        rev["author"] = rng.choice(POOL["author"])
+        for _, n in model.walk(rev):
+            if n["k"] == "sec":
+                if rng.random() < 0.5:
+                    n["definition"] = rng.choice(POOL["definition"])
+                if n["properties"] and rng.random() < 0.3:
+                    n["properties"].pop(rng.randrange(len(n["properties"])))
+            elif n["k"] == "prop":
+                if rng.random() < 0.5:
+                    n["unit"] = rng.choice(POOL["unit"])
+                if rng.random() < 0.5:
+                    n["definition"] = rng.choice(POOL["definition"])
+                if rng.random() < 0.3:
+                    n["reference"] = rng.choice(POOL["reference"])
+        docs.append(rev)
     return docs
 
 
@@ -109,9 +129,14 @@ def expected_rows(docs, pairs):
     kinds = [k for k in ("Doc", "Sec", "Prop") if any(p[0] == k for p in pairs)]
     objs = objects(docs)
     rows = set()
+    # a node is named by the id: objects that share an id (revisions of one document exported together) are one node,
+    # which carries what any of them carries
+    groups = {}
+    for kind, m, parent in objs:
+        groups.setdefault((kind, m["id"]), []).append(m)
 
     def ok(kind, m):
-        return all(carries(m, a, v) for k, a, v in pairs if k == kind)
+        return all(any(carries(g, a, v) for g in groups[(kind, m["id"])]) for k, a, v in pairs if k == kind)
     for kind, m, parent in objs:
         if kind == "Prop" and "Prop" in kinds:
             if not ok("Prop", m):
@@ -378,7 +403,8 @@ def gen_queries(rng, docs, n):
                     v = text(v)
                     if SAFE.match(v):
                         pairs.append([k, a, v])
-                if k == "Prop" and rng.random() < 0.2 and anchor.get("Prop") and anchor["Prop"]["values"]:
+                if k == "Prop" and rng.random() < 0.2 and anchor.get("Prop") and anchor["Prop"]["values"] and \
+                        len({d["id"] for d in docs}) == len(docs):
                     vals = [text(x) for x in anchor["Prop"]["values"][:2]]
                     if all(SAFE.match(x) for x in vals) and form == "dict":
                         pairs.append([k, "value", vals])
